@@ -200,7 +200,10 @@ def run(ctx):
                 ("loop-over", ("call", "zip", ll, lr)),
                 ("when", ("un", "Not", ("try", ("call", "equals", ("loopvar",), ("loopvar",)))), ("return", ("lit", "false"))),
                 ("value", ("lit", "true"))]
-        ctx.inst("C12.R3", "equals#List", S.verdict(tuple(lv), tuple(want)), "equals on lists: length test `!=`, zip of both lists, first unequal element -> false, else true: %s" % (lv == want), H.loc(EQ[key][1]["body"]))
+        v_list = S.verdict(tuple(lv), tuple(want))
+        if v_list is not True and any(S.contains_call(x, "compare") or S.contains_call(x, "partial_cmp") or S.contains_call(x, "stringify") or S.contains_call(x, "stringify_internal") for x in lv):
+            v_list = False  # equality answered through the ordering (no answer for null / records / functions) or through a printed form
+        ctx.inst("C12.R3", "equals#List", v_list, "equals on lists: length test `!=`, zip of both lists, first unequal element -> false, else true: %s" % (lv == want), H.loc(EQ[key][1]["body"]))
     else:
         ctx.inst("C12.R3", "equals#List", False, "no (List, List) arm in equals", None)
     key_r = ("tup", ("Record",), ("Record",))
@@ -273,3 +276,52 @@ def scalar_primitives(ctx, rid, core):
     sl, sr = reified("as_string", L), reified("as_string", R)
     ctx.inst(rid, "equals#String", S.verdict_opt(e, ("bin", "Eq", sl, sr)), "equals: %s" % (S.show(e) if e else None), H.loc(EQ[key][1]["body"]) if key in EQ else None)
     ctx.inst(rid, "compare#String", S.verdict_opt(c, ("call", "partial_cmp", sl, sr)), "compare: %s" % (S.show(c) if c else None), H.loc(CMP[key][1]["body"]) if key in CMP else None)
+
+
+def structural_equality(ctx, rid, core):
+    """Value::equals compares lists element by element (same length) and records key by key (same size, order ignored), recursively
+    through equals itself - not through compare (which has no answer for null, records, functions) and not through a printed form.
+    Shared with C06 / C11, whose statements are phrased in terms of `==` / `.==` on structured values."""
+    EQ = arm_leaves(core, "equals")
+
+    def vals(lv):
+        return [x for x in lv if x[0] in ("value", "return", "when", "unless", "loop-over")]
+
+    # lists
+    key = ("tup", ("List",), ("List",))
+    ll, lr = reified("as_list", L), reified("as_list", R)
+    if key in EQ:
+        lv = vals(EQ[key][0])
+        want = [("when", ("bin", "Ne", ("call", "len", ll), ("call", "len", lr)), ("return", ("lit", "false"))),
+                ("loop-over", ("call", "zip", ll, lr)),
+                ("when", ("un", "Not", ("try", ("call", "equals", ("loopvar",), ("loopvar",)))), ("return", ("lit", "false"))),
+                ("value", ("lit", "true"))]
+        v_list = S.verdict(tuple(lv), tuple(want))
+        if v_list is not True and any(S.contains_call(x, "compare") or S.contains_call(x, "partial_cmp") or S.contains_call(x, "stringify") or S.contains_call(x, "stringify_internal") for x in lv):
+            v_list = False  # equality answered through the ordering (no answer for null / records / functions) or through a printed form
+        ctx.inst(rid, "equals#List", v_list, "equals on lists: length test `!=`, zip of both lists, first unequal element -> false, else true: %s" % (lv == want), H.loc(EQ[key][1]["body"]))
+    else:
+        ctx.inst(rid, "equals#List", False, "no (List, List) arm in equals", None)
+    key_r = ("tup", ("Record",), ("Record",))
+    rl, rr = reified("as_record", L), reified("as_record", R)
+    if key_r in EQ:
+        lv = vals(EQ[key_r][0])
+        ok = len(lv) == 4 and lv[0] == ("when", ("bin", "Ne", ("call", "len", rl), ("call", "len", rr)), ("return", ("lit", "false"))) and lv[1] == ("loop-over", rl) and lv[3] == ("value", ("lit", "true"))
+        if ok:
+            mt = lv[2][1]
+            ok = mt[0] == "match" and mt[1] == ("call", "get", ("hoisted", rr), ("loopvar",))
+            arms = dict(mt[2]) if ok else {}
+            ok = ok and arms.get(("None",)) == ("ret", ("lit", "false")) and ("Some",) in arms
+        # the Some arm: `if !a_value.equals(b_value)? { return false }`
+        some_ok = False
+        for n in H.walk(EQ[key_r][1]["body"]):
+            if H.kind(n) == "If":
+                c_ = H.strip(n["cond"])
+                if H.kind(c_) == "Unary" and c_["op"] == "Not":
+                    inner = H.strip(c_["e"])
+                    if H.kind(inner) == "Try" and H.kind(H.strip(inner["e"])) == "MethodCall" and H.strip(inner["e"])["name"] == "equals":
+                        rets = [x for x in H.walk(n["then"]) if H.kind(x) == "Ret"]
+                        some_ok = bool(rets)
+        ctx.inst(rid, "equals#Record", ok and some_ok, "equals on records: exact length test, every key of the left looked up in the right, missing/unequal -> false (key order ignored): %s/%s" % (ok, some_ok), H.loc(EQ[key_r][1]["body"]))
+    else:
+        ctx.inst(rid, "equals#Record", False, "no (Record, Record) arm in equals", None)
